@@ -3,6 +3,7 @@ import glob
 import json
 import os
 import random
+import re
 
 from . import core
 
@@ -121,6 +122,24 @@ def fence_corpus(maxlines=4):
     return out
 
 
+REPEATABLE = [">> k%d: v\n", "@a{%d}\n\n", "@&a{%d}\n", "= s%d\n", "@a%d @b ", "> t%d\n\n", "-- c%d\n", "[- c%d -] ",
+              "@a{%d%%kg}(n) ", "~t{%d%%min} ", "#p%d{} ", "\\%d", "@&(~%d)x{} \n\n", ">> time: %dm\n", "@x|y%d{} ",
+              ">> [mode]: steps\n@q%d\n", "%d ºC ", "@a{%d-9}", "k%d: v\n"]
+
+
+def repetition_corpus():
+    """the same construct k times: diagnostics with many labels, long tables, deep block sequences"""
+    out = []
+    for unit in REPEATABLE:
+        for k in list(range(1, 13)) + [16, 33, 64, 100]:
+            t = "".join(unit % i for i in range(1, k + 1))
+            out.append(dict(text=t, src="repeat"))
+            out.append(dict(text="@a{1}\n\n" + t, src="repeat"))
+            if unit.startswith("k%d"):
+                out.append(dict(text="---\n" + t + "---\nstep\n", src="repeat"))
+    return out
+
+
 def judge(ctx, prop, trace_cfg, recs_path, recs, clause_prefix=""):
     n, bad, notes = core.run_judge(ctx, "Trace_Parse", recs_path, cfg=trace_cfg)
     for _, names in notes:
@@ -133,7 +152,7 @@ def judge(ctx, prop, trace_cfg, recs_path, recs, clause_prefix=""):
         for c in names:
             key = c
             if c == "NoPanic":
-                key = "NoPanic:" + r.get("panic", r.get("write", ""))[:70]
+                key = "NoPanic:" + re.sub(r"\d+", "N", r.get("panic", r.get("write", "")))[:70]
             ctx.violation(key, f"{prop} clause {c} fails on input {txt[:120]!r} (ext bits {r['ext']})",
                           dict(kind="spans", clause=c, input=r["input"], ext=r["ext"], text=syms_raw(r["input"])))
     return n
@@ -147,6 +166,7 @@ def _corpus(ctx, want_fences=False):
     repo = repo_corpus()
     recs += repo
     recs += random_corpus(ctx, 3000 if quick else 60000, [r["text"] for r in repo])
+    recs += repetition_corpus()
     if want_fences:
         recs += fence_corpus(3 if quick else 4)
     return recs
@@ -209,3 +229,97 @@ def replay_c04(ctx, case):
 
 def replay_c05(ctx, case):
     return _replay(ctx, case, "C05", "Trace_Parse_C05.cfg")
+
+
+# ------------------------------------------------------------------------------------------ C03
+STANDARD_PROGRAMS = [
+    ["parse", "report_write", "metadata_only", "events", "build_ast", "output", "accessors", "serialize", "scale",
+     "accessors", "serialize", "group_ingredients", "group_cookware", "ingredient_list", "categorize",
+     "convert_metric", "convert_imperial", "group_ingredients", "accessors", "serialize"],
+    ["parse", "output", "scale_servings", "convert_imperial", "convert_metric", "ingredient_list", "serialize"],
+    ["parse", "output", "default_scale", "convert_imperial", "group_ingredients", "categorize", "accessors"],
+]
+
+META_BOUNDARY = ["time: 71582789h", "time: 71582788h", "time: 1193046h 28m", "time: inf", "time: -5", "time: 4294967296",
+                 "time: 99999999999 min", "time: 1e400", "time: NaN", "prep time: 4294967295m", "cook time: 1h61m",
+                 "time: 4294967295", "time: 4294967296m", "time: 0.5 d", "time: 1 h 30 min", "time: 9999999999999999999h",
+                 "servings: 4294967296", "servings: 2|2", "servings: -1", "servings: 99999999999999999999",
+                 "time: 35791394h8m", "time: 35791394h7m", "time: 1h4294967295m", "time: 71582788h16m", "time: 1.5.5 h",
+                 "time: 1 lightyear", "time: . h", "tags: a,,b", "locale: en_GBX", "author: <>", "source: a <b> <c>"]
+
+
+def meta_boundary_corpus():
+    out = []
+    for v in META_BOUNDARY:
+        out.append(dict(text=">> " + v + "\n@a{1}\n", src="meta"))
+        out.append(dict(text="---\n" + v + "\n---\n@a{1}\n", src="meta"))
+    return out
+
+
+def check_c03(ctx):
+    core.build_harness()
+    quick = ctx.tier == "quick"
+    r = core.run_tlc(ctx, "MC_Api", "MC_Api_quick.cfg" if quick else "MC_Api_thorough.cfg", workers=4)
+    ctx.model_violation(r)
+    programs = [dict(prog=p) for p in STANDARD_PROGRAMS] + [dict(prog=x["prog"]) for x in r.replay]
+    recs = _corpus(ctx, want_fences=True) + meta_boundary_corpus()
+    pin = os.path.join(ctx.work, "in.ndjson")
+    pprog = os.path.join(ctx.work, "programs.ndjson")
+    pout = os.path.join(ctx.work, "calls.ndjson")
+    core.write_ndjson(pin, recs)
+    core.write_ndjson(pprog, programs)
+    try:
+        core.run_harness(ctx, ["calls", "--in", pin, "--programs", pprog, "--out", pout, "--ext", "none,all,compat",
+                               "--conv", "e,b", "--fixed", "3", "--rotate", "1" if quick else "3"])
+    except core.ToolError as e:
+        if os.path.exists(pout + ".timeout"):
+            os.replace(pout + ".timeout", pout)
+        else:
+            raise
+    obs = core.read_ndjson(pout)
+    n, bad, _ = core.run_judge(ctx, "Trace_Api", pout)
+    bad.sort(key=lambda b: len(obs[b[0] - 1]["input"]))
+    for line, names in bad:
+        x = obs[line - 1]
+        txt = syms_text(x["input"])
+        for c in names:
+            key = c
+            what = f"C03 clause {c} fails on input {txt[:120]!r}"
+            if c == "EveryCallReturns":
+                failed = [k for k in x["calls"] if k["st"] != "ret"]
+                if failed:
+                    key = f"EveryCallReturns:{failed[0]['c']}:" + re.sub(r"\d+", "N", failed[0].get('sig', ''))[:70]
+                    what = f"C03: call {failed[0]['c']} did not return ({failed[0].get('sig', '')[:160]}) on input {txt[:120]!r}"
+            ctx.violation(key, what, dict(kind="calls", clause=c, input=x["input"], text=syms_raw(x["input"]), calls=x["calls"]))
+    ctx.evaluations = sum(x.get("cfgs", 1) for x in obs)
+    ctx.nontrivial = len({tuple(x["input"]) for x in obs if len(x["input"]) >= 2})
+    ctx.rule = ("inputs: exhaustive short strings over the 35-symbol token alphabet (finished behaviours of MC_Lexer), "
+                "repository recipes, seeded random splices, fence/front-matter families, boundary metadata values; each "
+                "input x {no extensions, all, compat} x {empty, bundled converter} runs three standard API programs and "
+                "rotating TLC-generated programs of the CookApi protocol (MC_Api) with a per-input watchdog. "
+                "evaluations = input x configuration x program runs; non-trivial = distinct inputs of >= 2 characters")
+    ctx.extra["programs"] = len(programs)
+    ctx.extra["exhaustive"] = True
+    for x in obs[2000:2002] + obs[-2:]:
+        ctx.sample(dict(input=syms_text(x["input"])[:160], calls=[c["c"] + ":" + c["st"] for c in x["calls"]][:20]))
+    ctx.assumptions = ["TLC and the CommunityModules JSON reader are trusted",
+                       "catch_unwind observes every panic (the harness is built with debug assertions and overflow checks on)",
+                       "a call is a hang if it does not return within 10 s"]
+
+
+def replay_c03(ctx, case):
+    core.build_harness()
+    c = case["case"]
+    pin = os.path.join(ctx.work, "in.ndjson")
+    pprog = os.path.join(ctx.work, "programs.ndjson")
+    pout = os.path.join(ctx.work, "calls.ndjson")
+    core.write_ndjson(pin, [dict(text=c["text"])])
+    core.write_ndjson(pprog, [dict(prog=p) for p in STANDARD_PROGRAMS] + [dict(prog=[k["c"] for k in c["calls"]])])
+    core.run_harness(ctx, ["calls", "--in", pin, "--programs", pprog, "--out", pout, "--ext", "none,all,compat",
+                           "--conv", "e,b", "--fixed", "4"])
+    obs = core.read_ndjson(pout)
+    n, bad, _ = core.run_judge(ctx, "Trace_Api", pout)
+    for line, names in bad:
+        print("rejected:", names, obs[line - 1]["calls"])
+        ctx.violation("replay", "replayed case still fails", dict(calls=obs[line - 1]["calls"]))
+    return ctx.finish()
